@@ -6,8 +6,32 @@ VERIF = os.path.dirname(os.path.dirname(os.path.abspath(__file__)))
 
 # id -> (technique, level text, level note, design ref)
 CHECKS = {
+ "C01": ("reference-model runtime monitor: flat trigger predicate vs Router::match_request over generated routers/requests (bounded-exhaustive atomic-rule pairs + random)",
+         "Every generated (configuration, rule set, request) is matched by the real router (rules entering through their JSON form) and the multiset of returned ids is compared with a flat reference predicate written from the statement (per-trigger conjunction + any-host policy per scheme scope). All singletons and unordered pairs of a 77-rule atomic catalogue x 7 configurations x ~100 catalogue requests are enumerated; random routers of 1-30 rules are probed with per-rule witnesses and their single-trigger mutations. Held-on-what-was-observed.",
+         "Trusts the regex, chrono and cidr crates as primitives of the reference predicate and the predicate itself (cross-checked by seeded breaks); request URLs are normalisation-stable (C09 owns normalisation); exclude_methods in {absent,true}.",
+         "5/C01"),
+ "C02": ("history monitor with executable live-set model + differential (incremental vs rebuilt router) + index-dump invariant hook",
+         "Random op histories over insert/remove/batch_remove/apply_change_set/clone-then-mutate/cache are applied to the real router; after EVERY op the monitor checks len/get_route_by_id/remove return values against a live-set model, that the ids stored anywhere in the layered index (read through the verif hook) are exactly the live ids, that every probe request gets the same answer from the incremental router, a router rebuilt from the live rules and the flat C01 predicate, and that every earlier shared base router still gives its recorded answers. Failing histories are minimised by delta debugging.",
+         "Trusts the C01 reference predicate; id uniqueness among live rules is enforced by the generator (ops violating it are skipped and counted).",
+         "5/C02"),
+ "C03": ("differential runtime monitor: chunked vs single-chunk delivery through the real FilterBodyAction, exhaustive single cuts per body, failure minimisation + classification by an independent span scanner",
+         "For every (body, filter list) the single-chunk output is compared byte for byte with the output for partitions of the body: every single cut offset, strides, all 2-cut partitions of small bodies, random k-cuts with empty chunks, over a hostile corpus and its mutations. A failing partition is minimised to a minimal cut set; it is a known finding only when a necessary cut lies inside a comment/doctype/CDATA/raw-text construct according to a scanner that is independent of the tokenizer (and agrees with it on that body); anything else is a violation.",
+         "Bodies are valid UTF-8 (the property's domain); the independent scanner only decides which failures may be listed as known; failures on bodies where scanner and tokenizer disagree are reported as inconclusive.",
+         "5/C03"),
+ "C04": ("byte-conservation invariant monitor at the filter boundary with sentinel values; fault injection by input (invalid UTF-8 at every offset); error state and held bytes observed through hooks",
+         "Filter values are private-use sentinels that cannot occur in the body, so conservation is decidable exactly: no chain => out == b; insert-only lists => out minus values == b; HTML replace => out minus values is b minus '<...>' spans (DP). Checked for arbitrary bytes x whole / byte-at-a-time / strides / every single cut / random cuts, with an invalid byte injected at every offset of every corpus document; the hooks report bytes held back and the error state after every call, which also gives the exact signature of the one known loss (held bytes dropped on error).",
+         "replace_text is outside the statement; compressed bodies are C14's subject; the replace oracle is checked for bodies <= 1500 bytes.",
+         "5/C04"),
+ "C08": ("history monitor with executable model (flat list scanned with the regex crate) on the real RegexTreeMap/UniqueRegexTreeMap; exhaustive insertion orders x removal subsets for small pattern sets; tree snapshots through the hook",
+         "After every op of a history over insert/remove/retain/cache the real tree's find (for every haystack), len, is_empty, iter and get are compared with a flat list. For small pattern sets drawn from a 50-pattern rule-shaped catalogue all k! insertion orders x all 2^k removal subsets x {remove, retain} with re-insertion and interleaved cache calls are enumerated; random histories of <= 60 ops on top. The structural hook provides tree depth, shape transitions (split/collapse/re-split), cache states and the every-node-regex-compiles diagnostic.",
+         "Trusts the regex crate as the matching engine of the oracle; patterns restricted to the rule shape (empty pattern excluded); an extended-shape class (parentheses inside character classes) is classified separately as a known finding.",
+         "5/C08"),
+ "C13": ("reference-fold runtime monitor; exhaustive enumeration of header lists x filter sequences (k<=3) + random longer cases, through FilterHeaderAction::filter and Action::filter_headers",
+         "The five operations + unknown are folded by a reference written from the statement and compared with both real entry points for every header list of length <= 3 over {A,a,B}x{'',1,2} and every filter sequence of length k<=2 (quick) / k<=3 on reduced alphabets (thorough), plus random longer lists with real header names.",
+         "Trusts serde_json (to build the Action) and str::to_lowercase as the meaning of case-insensitive.",
+         "5/C13"),
  "C16": ("runtime span-accounting monitor on the real tokenizer; bounded-exhaustive short strings + random/mutated inputs",
-         "Every enumerated or generated byte string is tokenised by the real Tokenizer under an oracle that checks termination within |b|+1 tokens, non-empty spans, exact reconstruction of the input from raw spans + remainder, no panic, accessor success on valid UTF-8 and accessor non-interference (twin run). All strings up to length 7 (quick) / 8 (thorough) over a 15-symbol markup alphabet and all short suffixes after 20 context prefixes are enumerated completely; longer inputs are sampled. Held-on-what-was-observed, not a proof.",
+         "Every enumerated or generated byte string is tokenised by the real Tokenizer under an oracle that checks termination within |b|+1 tokens, non-empty spans, exact reconstruction of the input from raw spans + remainder, no panic, accessor success on valid UTF-8 and accessor non-interference (twin run). All strings up to length 7 (quick) / 8 (thorough) over a 15-symbol markup alphabet and all short suffixes after 20 context prefixes are enumerated completely; longer inputs (incl. random non-ASCII characters in every token position) are sampled. Held-on-what-was-observed, not a proof.",
          "Trusts rustc/std and String::from_utf8 as the definition of valid UTF-8; inputs longer than the enumerated bounds are only sampled.",
          "5/C16"),
 }
